@@ -767,6 +767,19 @@ pub fn epserde_derive(input: TokenStream) -> TokenStream {
                 }
             }});
 
+            // If there are bounded type parameters which are fields of some
+            // variant, we need to impose the same bounds on the SerType and on
+            // the DeserType.
+            replicate_field_param_bounds(
+                &derive_input.generics,
+                &types_with_generics
+                    .iter()
+                    .map(|x| x.to_token_stream().to_string())
+                    .collect::<Vec<_>>(),
+                &mut where_clause_ser,
+                &mut where_clause_des,
+            );
+
             // Gather deserialization types of fields,
             // which are necessary to derive the deserialization type.
             let deser_type_generics = generics_names
